@@ -9,6 +9,7 @@ import (
 	"bytes"
 	"fmt"
 	"sort"
+	"strings"
 	"time"
 
 	"github.com/LiskHQ/lisk-engine/pkg/blockchain"
@@ -40,11 +41,14 @@ type fixture struct {
 // build a chain with 4 weighted validators, a validator-set change (a 5th validator joins) at height 4,
 // long enough that several heights above maxHeightCertified are precommitted.
 func build(cert uint64, blocks int, withChange bool) *fixture {
+	// validators 0,1,5,6 (weights 1,2,3,4), later joined by 4: for these fixed keys the order by address (the
+	// order the BFT parameters are stored in) differs from the order by BLS key (the order of the aggregation
+	// bits), so that weights and keys can be told apart
 	cfg := node.DefaultConfig(4)
-	cfg.Set = node.WeightedSet([]uint64{1, 2, 3, 4}, cert)
+	cfg.Set = node.ValSet{Weights: []uint64{1, 2, 0, 0, 0, 3, 4}, Listed: []int{0, 1, 5, 6}, Precommit: 7, Cert: cert}
 	cfg.BatchSize = 5
 	cfg.MaxBlockCache = 50
-	cfg.ValChangeMenu = []node.ValSet{{Weights: []uint64{1, 2, 3, 4, 1}, Listed: []int{0, 1, 2, 3, 4}, Precommit: 8, Cert: cert + 1}}
+	cfg.ValChangeMenu = []node.ValSet{{Weights: []uint64{1, 2, 0, 0, 1, 3, 4}, Listed: []int{0, 1, 5, 6, 4}, Precommit: 8, Cert: cert + 1}}
 	n, err := node.New(cfg)
 	if err != nil {
 		panic(err)
@@ -346,13 +350,13 @@ func main() {
 			pool.Cleanup(func(uint32) bool { return false })
 			h := f.changeH - 1
 			hd, _ := f.n.Chain.DataAccess().GetBlockHeaderByHeight(h)
-			for _, v := range []int{1, 2, 3} {
+			for _, v := range []int{1, 5, 6} {
 				k := node.KeysOf(v)
 				pool.Add(certificate.NewSingleCommit(hd, k.Address, chainID, k.BLSPriv))
 			}
 			evals++
 			if _, err := f.n.Apply(node.Shape{WithAgg: true}); err != nil {
-				viol("block-with-own-aggregate-rejected", fmt.Sprintf("block carrying the node's own aggregate commit rejected: %v", err), caseT{cert, h, []int{1, 2, 3}, "", "b-block"})
+				viol("block-with-own-aggregate-rejected", fmt.Sprintf("block carrying the node's own aggregate commit rejected: %v", err), caseT{cert, h, []int{1, 5, 6}, "", "b-block"})
 			} else {
 				_, _, mhc := f.n.BFTHeights()
 				if mhc != h && cert <= 9 {
@@ -360,6 +364,138 @@ func main() {
 				}
 				_ = f.n.Exec.VerifDeleteBlock(f.n.Tip(), false)
 			}
+		}
+		// ---- (d) the node's own certification step: Executer.Certify as the generator calls it after finalization ----
+		{
+			_, pc, mhc := f.n.BFTHeights()
+			everyone := []int{0, 1, 4, 5, 6}
+			for from := mhc; from < pc; from++ {
+				for to := from + 1; to <= pc; to++ {
+					pool.Cleanup(func(uint32) bool { return false })
+					c := caseT{cert, to, nil, fmt.Sprintf("certify(%d,%d]", from, to), "d"}
+					failed := false
+					for _, v := range everyone {
+						k := node.KeysOf(v)
+						if err := f.n.Exec.Certify(from, to, k.Address, k.BLSPriv); err != nil {
+							viol("certify-fails", fmt.Sprintf("Certify(%d,%d) for validator %d: %v", from, to, v, err), c)
+							failed = true
+						}
+					}
+					evals++
+					if failed {
+						continue
+					}
+					// LIP-0061: a single commit for every height in (from,to] whose successor starts new BFT parameters
+					// (the block authenticates a validator-set change), and for `to` itself; one per active validator
+					for h := uint32(1); h <= pc; h++ {
+						want := h > from && h <= to && (h == to || h+1 == f.changeH)
+						per := map[string]int{}
+						for _, sc := range pool.Get(h) {
+							per[string(sc.ValidatorAddress())]++
+						}
+						for a, n := range per {
+							if n > 1 {
+								viol("certify-duplicate-single-commit", fmt.Sprintf("Certify(%d,%d] put %d single commits of validator %x for height %d into the pool", from, to, n, a[:4], h), c)
+							}
+						}
+						act, _, _ := f.activeAt(h)
+						switch {
+						case want && len(per) != len(act):
+							viol("certify-misses-height", fmt.Sprintf("Certify(%d,%d]: %d of %d active validators have a single commit for height %d (next parameter change at %d)", from, to, len(per), len(act), h, f.changeH), c)
+						case !want && len(per) != 0:
+							viol("certify-extra-height", fmt.Sprintf("Certify(%d,%d] created single commits for height %d (next parameter change at %d)", from, to, h, f.changeH), c)
+						}
+					}
+					var agg *blockchain.AggregateCommit
+					var err error
+					if p := vlib.Catch(func() { agg, err = f.n.Exec.GetAggregateCommit() }); p != "" || err != nil {
+						viol("get-aggregate-fails-after-certify", fmt.Sprintf("GetAggregateCommit after Certify(%d,%d]: %v %s", from, to, err, p), c)
+						continue
+					}
+					if err := f.n.Exec.VerifVerifyAggregateCommit(agg); err != nil {
+						viol("own-aggregate-rejected-after-certify", fmt.Sprintf("after Certify(%d,%d] by every validator the node's own aggregate commit (height %d) is rejected by its own verification: %v", from, to, agg.Height, err), c)
+						continue
+					}
+					if !agg.Empty() {
+						r.Add("own_aggregates_after_certify_verified", 1)
+					}
+				}
+			}
+		}
+		// ---- (e) pool histories: deliveries through the gossip validator interleaved with the periodic gossip step ----
+		{
+			_, pc, _ := f.n.BFTHeights()
+			const hE = uint32(1)
+			hdE, _ := f.n.Chain.DataAccess().GetBlockHeaderByHeight(hE)
+			actE, _, _ := f.activeAt(hE)
+			msgOf := func(v int) []byte {
+				k := node.KeysOf(v)
+				sc := certificate.NewSingleCommit(hdE, k.Address, chainID, k.BLSPriv)
+				inner := append(append(append(fb(1, hdE.ID), fu(2, uint64(hE))...), fb(3, k.Address)...), fb(4, []byte(sc.CertificateSignature()))...)
+				return fb(1, inner)
+			}
+			type opT struct {
+				name string
+				run  func()
+			}
+			ops := []opT{}
+			for _, v := range actE {
+				v := v
+				ops = append(ops, opT{fmt.Sprintf("deliver(v%d)", v), func() { f.n.Exec.VerifSingleCommitValidator(msgOf(v)) }})
+			}
+			ops = append(ops, opT{"gossip-step(select+upgrade)", func() { pool.Upgrade(pool.Select(pc, len(actE))) }})
+			depth := 4
+			var seq []int
+			var walk func()
+			walk = func() {
+				if len(seq) > 0 {
+					pool.Cleanup(func(uint32) bool { return false })
+					names := []string{}
+					for _, o := range seq {
+						ops[o].run()
+						names = append(names, ops[o].name)
+					}
+					evals++
+					c := caseT{cert, hE, nil, strings.Join(names, " "), "e"}
+					per := map[string]int{}
+					for _, sc := range pool.Get(hE) {
+						per[string(sc.ValidatorAddress())]++
+					}
+					dup := false
+					for a, n := range per {
+						if n > 1 {
+							dup = true
+							viol("pool-holds-duplicate-single-commit", fmt.Sprintf("after [%s] the pool returns %d single commits of validator %x for height %d", c.Tamper, n, a[:4], hE), c)
+						}
+					}
+					agg, err := f.n.Exec.GetAggregateCommit()
+					if err != nil {
+						viol("get-aggregate-fails-in-history", fmt.Sprintf("after [%s]: %v", c.Tamper, err), c)
+					} else if err := f.n.Exec.VerifVerifyAggregateCommit(agg); err != nil && !dup {
+						viol("own-aggregate-rejected-in-history", fmt.Sprintf("after [%s] the node's own aggregate commit is rejected: %v", c.Tamper, err), c)
+					} else if err == nil && !agg.Empty() {
+						signers := []int{}
+						for _, v := range actE {
+							if per[string(node.KeysOf(v).Address)] > 0 {
+								signers = append(signers, v)
+							}
+						}
+						if ok, _ := f.lip61(agg.Height, signers); !ok {
+							viol("own-aggregate-not-certifiable-in-history", fmt.Sprintf("after [%s] GetAggregateCommit certified height %d with signers %v, which LIP-0061 does not allow", c.Tamper, agg.Height, signers), c)
+						}
+						r.Add("own_aggregates_in_histories_verified", 1)
+					}
+				}
+				if len(seq) == depth {
+					return
+				}
+				for o := range ops {
+					seq = append(seq, o)
+					walk()
+					seq = seq[:len(seq)-1]
+				}
+			}
+			walk()
 		}
 		// ---- (c) pool admission through the gossip validator ----
 		pool.Cleanup(func(uint32) bool { return false })
@@ -375,7 +511,7 @@ func main() {
 						k := node.KeysOf(w.idx)
 						signer := k
 						if sigKind == "other-validator" {
-							signer = node.KeysOf(2)
+							signer = node.KeysOf(5)
 						}
 						signHd := hd
 						if sigKind == "other-height" && h <= 1 {
